@@ -64,7 +64,9 @@ def check_file(ctx, stem, text_in, model=None, subdir="inputs", symlink_target=N
         os.mkdir(os.path.join(d, "outputs"))
         rel = f"{subdir}/{stem}.py"
         # a report of an earlier run of the same input must be replaced, not extended
-        open(os.path.join(d, "outputs", stem + ".txt"), "w").write("=" * 160 + "\nRunning example         : stale\n")
+        # (the stale report is LONGER than any new one: nothing of it may survive)
+        open(os.path.join(d, "outputs", stem + ".txt"), "w").write(
+            "=" * 160 + "\nRunning example         : stale\n" + ("=" * 160 + "\nRunning example         : stale tail\n" + "x" * 3000 + "\n") * 400)
         if symlink_target:
             # the real file has another name; the path given on the command line is a symbolic link to it
             open(os.path.join(d, subdir.lstrip("./"), symlink_target + ".py"), "w", encoding="utf-8").write(text_in)
@@ -179,6 +181,37 @@ def rval(x):
     raise TypeError(type(x))
 
 
+def optimized_cli(ctx, stem, text_in):
+    """conditionalrewards.py -f ... -s under `python -O` writes the same report as under the normal interpreter
+    (the elapsed time aside)"""
+    reports = []
+    for flags in ((), ("-O",)):
+        d = tempfile.mkdtemp(prefix="crv_")
+        try:
+            os.mkdir(os.path.join(d, "inputs"))
+            os.mkdir(os.path.join(d, "outputs"))
+            open(os.path.join(d, "inputs", stem + ".py"), "w", encoding="utf-8").write(text_in)
+            env = {k: v for k, v in os.environ.items() if k != "PYTHONOPTIMIZE"}
+            env.update(PYTHONPATH=REPO, PYTHONDONTWRITEBYTECODE="1")
+            try:
+                p = subprocess.run([sys.executable, *flags, os.path.join(REPO, "conditionalrewards.py"), "-f", f"inputs/{stem}.py", "-s"], cwd=d,
+                                   capture_output=True, text=True, timeout=120, env=env)
+            except subprocess.TimeoutExpired:
+                ctx.count("skipped_nonterminating_input")
+                return
+            out = os.path.join(d, "outputs", stem + ".txt")
+            rep = open(out, encoding="utf-8", errors="replace").read() if os.path.exists(out) else f"<no report, rc={p.returncode}>"
+            reports.append("\n".join(ln for ln in rep.split("\n") if not ln.startswith("Total time")))
+        finally:
+            shutil.rmtree(d, ignore_errors=True)
+    ctx.case({"stem": stem, "interpreter": "python -O", "file_text": text_in}, True)
+    if reports[0] != reports[1]:
+        a, b = reports[0].split("\n"), reports[1].split("\n")
+        k = next((i for i, (x, y) in enumerate(zip(a, b)) if x != y), min(len(a), len(b)))
+        ctx.violation("report-states-what-was-computed", {"stem": stem, "interpreter": "python -O", "file_text": text_in},
+                      {"first_differing_line": k, "normal": a[k][:200] if k < len(a) else None, "python -O": b[k][:200] if k < len(b) else None})
+
+
 def run(ctx, model=None):
     ctx.extra["rule"] = RULE
     rng = random.Random(ctx.seed * 817504243 + 16)
@@ -207,6 +240,19 @@ def run(ctx, model=None):
     nb_bad["players"][0] = "Player\u00a01"
     # repr() escapes U+00A0; a hand-written file contains the character itself
     check_file(ctx, "nbsp_names_1", render_game_file([("game\u00a0a", nb), ("game a", nb), ("bad", nb_bad)]).replace("\\xa0", "\u00a0"), model)
+    # braces and format fields inside names; characters str.splitlines() treats as line ends (VT, FS, NEL, U+2028)
+    # inside names of a hand-written file (the characters themselves, not escapes)
+    br = copy.deepcopy(nb)
+    br["transition_list"][0] = [("{n_states}", 1), ("{{7}} {0} {", 2)]
+    check_file(ctx, "brace_names_1", render_game_file([("game {n_states} {{7}}", br), ("} {msg!r:>9} {", nb)]), model)
+    ls_ = copy.deepcopy(nb)
+    ls_["transition_list"][0] = [("up\x0bdown", 1), ("left\x1cright", 2)]
+    txt = render_game_file([("g\x85one", ls_), ("g\u2028two", nb)])
+    for esc, ch in (("\\x0b", "\x0b"), ("\\x1c", "\x1c"), ("\\x85", "\x85"), ("\\u2028", "\u2028")):
+        txt = txt.replace(esc, ch)
+    check_file(ctx, "line_separator_names_1", txt, model)
+    # the same file through `python -O` (asserts stripped, __debug__ False): identical report
+    optimized_cli(ctx, "opt_1", render_game_file([("g_1", nb), ("bad", nb_bad)]))
     # the input given through a symbolic link with another name
     check_file(ctx, "current_2", render_game_file([("g_1", nb)]), model, symlink_target="fork_v3")
     N = 6 if ctx.quick() else 400
